@@ -298,7 +298,8 @@ def allocNames : List String :=
 def ctorIds : List MId :=
   [⟨"Vec", "new_in"⟩, ⟨"Vec", "with_capacity_in"⟩, ⟨"Vec", "from_iter_in"⟩,
    ⟨"String", "new_in"⟩, ⟨"String", "with_capacity_in"⟩, ⟨"String", "from_str_in"⟩,
-   ⟨"String", "from_iter_in"⟩, ⟨"Box", "new_in"⟩, ⟨"Box", "from_iter_in"⟩,
+   ⟨"String", "from_iter_in"⟩, ⟨"String", "from_utf8_lossy_in"⟩, ⟨"String", "from_utf16_in"⟩,
+   ⟨"Box", "new_in"⟩, ⟨"Box", "from_iter_in"⟩,
    ⟨"RawVec", "new_in"⟩, ⟨"RawVec", "with_capacity_in"⟩]
 
 /-- `&mut self` methods of `Bump` that invalidate or expose everything allocated so far -/
